@@ -378,7 +378,8 @@ class Guided:
                 r = dict(r, sub=r["sub"] + dd * 3)
         pref = lambda *names: (rng.choice([i for n in names for i in r[n]]) if any(r[n] for n in names) and rng.random() < 0.8 else anyi())
         k = rng.choice(["NewInner"] * 5 + ["NewLeaf", "Attach", "Detach", "Detach", "DetachSelf", "DetachSelf"] + ["Replace"] * 4
-                       + ["ReplaceWith"] * 4 + ["ReplaceNone", "Dup", "Dup", "Xpath", "Visitor", "Visitor", "Transformer", "Transformer", "Twin"])
+                       + ["ReplaceWith"] * 4 + ["ReplaceNone", "Dup", "Dup", "Xpath", "Xpath", "Xpath", "Visitor", "Visitor", "Transformer", "Transformer", "Twin"])
+        # (calculate_xpath several times per history: a recalculation after an in-place edit must refresh every path)
         if k == "NewLeaf":
             self.new_leaf()
         elif k == "Twin":
